@@ -12,11 +12,15 @@ EXTENDS Deque, TraceBase
 
 Min2(a, b) == IF a < b THEN a ELSE b
 
+\* e.full: 1 = everything observed; 0 = no whole-contents listing (large queues);
+\* 2 = nothing but the listed Peek offsets (possibly none) was looked at after the call --
+\* the container must not depend on being observed to put itself in order
 ObsOK(e, s) ==
-  /\ e.len = Len(s)
-  /\ e.empty = (s = <<>>)
-  /\ e.front = FrontOf(s)
   /\ e.panic = ""
+  /\ (e.full # 2 =>
+        /\ e.len = Len(s)
+        /\ e.empty = (s = <<>>)
+        /\ e.front = FrontOf(s))
   /\ (e.full = 1 =>
         /\ e.slice = s
         /\ e.each = (IF e.stop = 0 THEN s ELSE SubSeq(s, 1, Min2(e.stop, Len(s)))))
